@@ -16,7 +16,7 @@ for d in sorted(glob.glob(os.path.join(ROOT, "seeded", "*"))):
     first = m.get("first_run_result")
     if m.get("neutralised_by"):
         first = (first or "caught as built") + "; NOW NEUTRALISED by fix " + m["neutralised_by"]
-    rows.append(f"| {name} | {summ} | {'yes' if m.get('check', {}).get('caught') else '**NO**'} | {ks} | {first or 'caught as built'} |")
+    rows.append(f"| {name} | {summ} | {'yes' if m.get('check', {}).get('caught') else ('no (by design)' if m.get('not_caught_by_design') else '**NO**')} | {ks} | {first or 'caught as built'} |")
 print("| change | what it does | caught | violation keys | first run |")
 print("|---|---|---|---|---|")
 print("\n".join(rows))
